@@ -165,7 +165,15 @@ impl<'a, 'tcx> Cx<'a, 'tcx> {
         let mut o: Vec<(&str, J)> = vec![("ty", J::Str(ty_str(cty)))];
         o.push(("disp", J::Str(format!("{}", c))));
         if let ty::FnDef(did, args) = *cty.kind() {
-            o.push(("fn", J::Str(path(tcx, did))));
+            o.push(("fn_decl", J::Str(path(tcx, did))));
+            // a function item used as a value: resolve trait methods to the impl they name
+            let mut target = did;
+            if !format!("{:?}", args).contains("Param(") {
+                if let Ok(Some(inst)) = Instance::try_resolve(tcx, self.env, did, args) {
+                    target = inst.def_id();
+                }
+            }
+            o.push(("fn", J::Str(path(tcx, target))));
             o.push(("substs", substs_json(args)));
             return J::obj(vec![("const", J::obj(o))]);
         }
